@@ -11,17 +11,19 @@ namespace RRule
 
 inductive Family where
   | daily | weekly | yearlyMonthly | monthlyNth | yearlyNth | yearlyBymonthNth | yearlyEaster | yearlyWeekno
+  | monthlyWeekno
   | hourly | hourlyByhour | minutely | minutelyByminute | secondly
   deriving Repr, DecidableEq, Inhabited
 
 def Family.name : Family → String
   | .daily => "daily" | .weekly => "weekly" | .yearlyMonthly => "yearly_monthly" | .monthlyNth => "monthly_nth"
   | .yearlyNth => "yearly_nth" | .yearlyBymonthNth => "yearly_bymonth_nth" | .yearlyEaster => "yearly_easter"
-  | .yearlyWeekno => "yearly_weekno" | .hourly => "hourly" | .hourlyByhour => "hourly_byhour"
+  | .yearlyWeekno => "yearly_weekno" | .monthlyWeekno => "monthly_weekno" | .hourly => "hourly" | .hourlyByhour => "hourly_byhour"
   | .minutely => "minutely" | .minutelyByminute => "minutely_byminute" | .secondly => "secondly"
 
 def Family.all : List Family :=
   [.daily, .weekly, .yearlyMonthly, .monthlyNth, .yearlyNth, .yearlyBymonthNth, .yearlyEaster, .yearlyWeekno,
+   .monthlyWeekno,
    .hourly, .hourlyByhour, .minutely, .minutelyByminute, .secondly]
 
 /-- the optional list is given, non-empty, and satisfies `P` -/
@@ -63,9 +65,14 @@ def wnoOk (wl : List Int) : Prop :=
   ((52 ∈ wl ∨ 53 ∈ wl) → -1 ∈ wl) ∧ ((-52 ∈ wl ∨ -53 ∈ wl) → 1 ∈ wl)
 instance (wl : List Int) : Decidable (wnoOk wl) := by unfold wnoOk; exact inferInstance
 
+/-- BYWEEKNO absent, or on the complement of D-C01c with a week start 0..6 (FREQ ≥ DAILY) -/
+def wArgOk (a : Args) : Prop :=
+  a.byweekno = none ∨ (someWith a.byweekno wnoOk ∧ 0 ≤ a.wkst.getD 0 ∧ a.wkst.getD 0 ≤ 6)
+instance (a : Args) : Decidable (wArgOk a) := by unfold wArgOk; exact inferInstance
+
 /-- **the families with an exactness theorem** -/
 def SupportedBy (a : Args) : Family → Prop
-  | .daily => a.freq = 3 ∧ baseOk a ∧ a.byweekno = none ∧ a.byeaster = none
+  | .daily => a.freq = 3 ∧ baseOk a ∧ wArgOk a ∧ a.byeaster = none
   | .weekly => a.freq = 2 ∧ baseOk a ∧ a.byweekno = none ∧ a.byeaster = none ∧
       (a.bysetpos = none ∨ Cal.weekdayOfOrd (Spec.RRule.startOrd a) = a.wkst.getD 0) ∧
       (0 ≤ a.wkst.getD 0 ∧ a.wkst.getD 0 ≤ 6) ∧ untilOk a
@@ -78,15 +85,17 @@ def SupportedBy (a : Args) : Family → Prop
       someWith a.byeaster (fun el => ∀ o ∈ el, -80 ≤ o ∧ o ≤ 250)
   | .yearlyWeekno => a.freq = 0 ∧ baseOk a ∧ a.byeaster = none ∧ plainDays a ∧
       (0 ≤ a.wkst.getD 0 ∧ a.wkst.getD 0 ≤ 6) ∧ someWith a.byweekno wnoOk
-  | .hourly => a.freq = 4 ∧ baseOk a ∧ a.byweekno = none ∧ a.byeaster = none ∧ a.byhour = none ∧
+  | .monthlyWeekno => a.freq = 1 ∧ baseOk a ∧ a.byeaster = none ∧ plainDays a ∧
+      (0 ≤ a.wkst.getD 0 ∧ a.wkst.getD 0 ≤ 6) ∧ someWith a.byweekno wnoOk
+  | .hourly => a.freq = 4 ∧ baseOk a ∧ wArgOk a ∧ a.byeaster = none ∧ a.byhour = none ∧
       minutesOk a ∧ secondsOk a
-  | .hourlyByhour => a.freq = 4 ∧ baseOk a ∧ a.byweekno = none ∧ a.byeaster = none ∧
+  | .hourlyByhour => a.freq = 4 ∧ baseOk a ∧ wArgOk a ∧ a.byeaster = none ∧
       someWith a.byhour (fun l => ∀ x ∈ l, 0 ≤ x ∧ x ≤ 23) ∧ minutesOk a ∧ secondsOk a
-  | .minutely => a.freq = 5 ∧ baseOk a ∧ a.byweekno = none ∧ a.byeaster = none ∧ a.byhour = none ∧
+  | .minutely => a.freq = 5 ∧ baseOk a ∧ wArgOk a ∧ a.byeaster = none ∧ a.byhour = none ∧
       a.byminute = none ∧ secondsOk a
-  | .minutelyByminute => a.freq = 5 ∧ baseOk a ∧ a.byweekno = none ∧ a.byeaster = none ∧ a.byhour = none ∧
+  | .minutelyByminute => a.freq = 5 ∧ baseOk a ∧ wArgOk a ∧ a.byeaster = none ∧ a.byhour = none ∧
       someWith a.byminute (fun l => ∀ x ∈ l, 0 ≤ x ∧ x ≤ 59) ∧ secondsOk a
-  | .secondly => a.freq = 6 ∧ baseOk a ∧ a.byweekno = none ∧ a.byeaster = none ∧ a.byhour = none ∧
+  | .secondly => a.freq = 6 ∧ baseOk a ∧ wArgOk a ∧ a.byeaster = none ∧ a.byhour = none ∧
       a.byminute = none ∧ a.bysecond = none
 
 instance (a : Args) (f : Family) : Decidable (SupportedBy a f) := by
@@ -109,7 +118,7 @@ def inRange (a : Args) (f : Family) (n : Nat) : Prop :=
   | .weekly => Spec.RRule.weekStart (a.wkst.getD 0) (Spec.RRule.startOrd a) + 7 * (n * a.interval) + 7 ≤ Cal.maxOrdinal + 1
   | .yearlyMonthly => (a.freq = 0 → a.dtstart.y + n * a.interval ≤ 9999) ∧
       (a.freq = 1 → (a.dtstart.y * 12 + (a.dtstart.m - 1) + n * a.interval) / 12 ≤ 9999)
-  | .monthlyNth => (a.dtstart.y * 12 + (a.dtstart.m - 1) + n * a.interval) / 12 ≤ 9999
+  | .monthlyNth | .monthlyWeekno => (a.dtstart.y * 12 + (a.dtstart.m - 1) + n * a.interval) / 12 ≤ 9999
   | .yearlyNth | .yearlyBymonthNth | .yearlyWeekno => a.dtstart.y + n * a.interval ≤ 9999
   | .yearlyEaster => 1583 ≤ a.dtstart.y ∧ a.dtstart.y + n * a.interval ≤ 4099
   | .hourly => Spec.RRule.startOrd a * 24 + a.dtstart.hh + (24 * n + 1) * a.interval + 23 < (Cal.maxOrdinal + 1) * 24
